@@ -324,7 +324,19 @@ impl JoinOp {
         if let Some(cond) = &self.condition {
             Self::collect_equi_keys(cond, &mut keys);
         }
-        keys
+        // The condition may name the right input first (`ON b.x = a.y`): orient every pair as (left, right).
+        // A pair that compares two columns of the same input is not a join key; without residual
+        // predicates in the key-based joins the whole condition is then left to the nested loop join.
+        let left_cols = self.left_schema.num_columns();
+        let mut oriented = Vec::with_capacity(keys.len());
+        for (l, r) in keys {
+            match (l < left_cols, r < left_cols) {
+                (true, false) => oriented.push((l, r)),
+                (false, true) => oriented.push((r, l)),
+                _ => return Vec::new(),
+            }
+        }
+        oriented
     }
 
     fn collect_equi_keys(expr: &BoundExpression, keys: &mut Vec<(usize, usize)>) {
